@@ -264,6 +264,42 @@ func Generate(family string, seed int64, idx int) Scenario {
 		p.MaxAppend = pick(r, 1, 4, 64)
 		sc.Clients = 0
 		sc.Script = "snapterm"
+	case "dupae", "monofail", "snaptrunc", "snapleader":
+		p := &sc.P
+		p.Voters, p.NonVoters, p.Spares = 3, 0, 0
+		p.Protocol = 0
+		p.ShutdownOnRemove = false
+		p.RestoreCommitted = false
+		p.SnapThreshold, p.SnapIntervalS = 8192, 100000
+		p.ApplyDelayMs, p.PersistDelayMs, p.RestoreDelayMs = 0, 0, 0
+		sc.Clients = 0
+		sc.Script = family
+		switch family {
+		case "dupae":
+			p.Voters = pick(r, 3, 3, 5)
+			p.Trailing = 10240
+			p.MaxAppend = pick(r, 1, 2, 64)
+		case "monofail":
+			p.Flavor = Flavor{Monotonic: true, Strict: r.Intn(2) == 0}
+			p.Trailing = pick[uint64](r, 0, 0, 2)
+			p.LogCache = 0
+		case "snaptrunc":
+			p.Trailing = pick[uint64](r, 8, 10, 16)
+			p.PersistDelayMs = p.ElectionMs * pick(r, 5, 7)
+			p.Flavor = Flavor{}
+		case "snapleader":
+			p.Voters = 5
+			p.Trailing = 0
+			p.FastPath = true
+			p.RestoreDelayMs = p.ElectionMs * pick(r, 5, 7)
+			p.Flavor = Flavor{}
+		}
+		p.PreVoteOff = make([]bool, p.N())
+		if r.Intn(3) == 0 {
+			for i := range p.PreVoteOff {
+				p.PreVoteOff[i] = true
+			}
+		}
 	case "promote":
 		// C17/C09: membership history under one continuous leadership (join as non-voter, promote,
 		// demote, remove, re-add) with VerifyLeader / Barrier / writes after every step
